@@ -11,6 +11,8 @@ report the number of distinct particles that really moved.
 Elements of composites are pre-selected (same target on several elements, or a later
 element only), and the failure clause is also judged under FixCom, where a vetoed
 attempt has shifted every atom.
+Labels also come as packed 64-bit ids, in unsigned and narrow integer dtypes, as plain lists, and are re-assigned on
+live moves through set_labels (with a fresh array, or with the user's own array edited in place).
 """
 from __future__ import annotations
 
